@@ -35,7 +35,7 @@ pub fn run(ctx: &Ctx) -> (Report, Meta) {
         allow_max_steps: true,
         ..Default::default()
     };
-    let n = ctx.size(3_000, 300_000);
+    let n = ctx.size(12_000, 300_000);
     let g_ref = &g;
     let rep = par_for(n, "C12", |i, rep| {
         let g = g_ref;
@@ -218,7 +218,7 @@ pub fn run(ctx: &Ctx) -> (Report, Meta) {
     });
     // auxiliary clause: the low-level builders with dense_output on and off make identical callback
     // sequences (x, y); only the evaluation counts may differ (DOP853's three extra stages)
-    let nlow = ctx.size(1_500, 150_000);
+    let nlow = ctx.size(6_000, 150_000);
     let rep_low = par_for(nlow, "C12", |i, rep| {
         let case_id = format!("low/{}", i);
         if !ctx.want(&case_id) {
